@@ -31,6 +31,8 @@ type Spec struct {
 type retargetSpec struct {
 	Window  int32 // blocks per retarget
 	Spacing int64 // target seconds per block
+	MinDiff bool  // testnet rule: a block more than 2*Spacing after its parent may use the limit
+	BIP94   bool  // testnet4: retarget from the period's first block, time-warp rule
 }
 
 func (s Spec) Impl() *chaincfg.Params {
@@ -52,6 +54,9 @@ func (s Spec) Impl() *chaincfg.Params {
 		p.TargetTimePerBlock = time.Duration(s.retarget.Spacing) * time.Second
 		p.TargetTimespan = time.Duration(s.retarget.Spacing*int64(s.retarget.Window)) * time.Second
 		p.RetargetAdjustmentFactor = 4
+		p.ReduceMinDifficulty = s.retarget.MinDiff
+		p.MinDiffReductionTime = 2 * p.TargetTimePerBlock
+		p.EnforceBIP94 = s.retarget.BIP94
 	}
 	return p
 }
@@ -78,7 +83,9 @@ func (s Spec) Ref() *refblock.Params {
 		rp.ExpectedBits = func([]wire.BlockHeader, int64) uint32 { return regtestPowLimitBits }
 	} else {
 		rt := *s.retarget
-		rp.ExpectedBits = func(h []wire.BlockHeader, _ int64) uint32 { return refRetarget(h, rt) }
+		rp.ExpectedBits = func(h []wire.BlockHeader, t int64) uint32 { return refRetarget(h, t, rt) }
+		rp.BIP94 = rt.BIP94
+		rp.Window = rt.Window
 	}
 	return rp
 }
@@ -87,10 +94,22 @@ func (s Spec) Ref() *refblock.Params {
 // the testnet exceptions), naive: the window's first block is height-(W-1), the
 // timespan is clamped to [T/4, 4T], the new target is old*span/T capped at the
 // limit and rounded to compact form.
-func refRetarget(h []wire.BlockHeader, rt retargetSpec) uint32 {
+func refRetarget(h []wire.BlockHeader, blockTime int64, rt retargetSpec) uint32 {
 	last := len(h) - 1
 	next := int32(last + 1)
 	if next%rt.Window != 0 {
+		if rt.MinDiff {
+			// testnet: after more than twice the spacing the limit is allowed;
+			// otherwise the last bits that were not such an exception
+			if blockTime > h[last].Timestamp.Unix()+2*rt.Spacing {
+				return regtestPowLimitBits
+			}
+			i := last
+			for i > 0 && int32(i)%rt.Window != 0 && h[i].Bits == regtestPowLimitBits {
+				i--
+			}
+			return h[i].Bits
+		}
 		return h[last].Bits
 	}
 	first := last - int(rt.Window-1)
@@ -102,7 +121,11 @@ func refRetarget(h []wire.BlockHeader, rt retargetSpec) uint32 {
 	if span > T*4 {
 		span = T * 4
 	}
-	old, _, _ := refblock.DecodeCompact(h[last].Bits)
+	from := h[last].Bits
+	if rt.BIP94 {
+		from = h[first].Bits
+	}
+	old, _, _ := refblock.DecodeCompact(from)
 	n := new(big.Int).Mul(old, big.NewInt(span))
 	n.Div(n, big.NewInt(T))
 	if n.Cmp(regtestPowLimit) > 0 {
@@ -305,4 +328,8 @@ var (
 	specBip30   = Spec{Name: "bip30", BIP34: never, BIP65: never, BIP66: never, CSV: 1, Maturity: 2, Halving: 150, Spacing: 512}
 	specRetgt   = Spec{Name: "retarget", BIP34: 1, BIP65: 1, BIP66: 1, CSV: 1, Maturity: 2, Halving: 5, Spacing: 512,
 		retarget: &retargetSpec{Window: 4, Spacing: 512}}
+	specMinDiff = Spec{Name: "mindiff", BIP34: 1, BIP65: 1, BIP66: 1, CSV: 1, Maturity: 2, Halving: 5, Spacing: 512,
+		retarget: &retargetSpec{Window: 4, Spacing: 512, MinDiff: true}}
+	specBip94 = Spec{Name: "bip94", BIP34: 1, BIP65: 1, BIP66: 1, CSV: 1, Maturity: 2, Halving: 5, Spacing: 512,
+		retarget: &retargetSpec{Window: 4, Spacing: 512, MinDiff: true, BIP94: true}}
 )
